@@ -15,7 +15,9 @@ EXPLANATION = (
     'term-for-term the AUTO templates (same literals, same field expressions, same defaults) and are joined by a blank; '
     'R8.5 the word goes through denormalize in every AUTO-family writer, denormalize is idempotent on its own output '
     '(no output equals a rewritten key or contains a rewritten character), and the reader keeps the escaped spelling '
-    'apart from deleting backslashes.  The round trip for arbitrary categories depends on C05 and is not decided here.')
+    'apart from deleting backslashes.  The round trip for arbitrary categories depends on C05 and is not decided here.'
+    " read_auto may repair treebank glitches only on whole fields (never by whole-line replace / regex substitution), and the value of a leaf's last field -- truncated by next() when the leaf ends the line -- must not be used."
+)
 TRUSTED = ['CPython ast', 'sa/pysym.py path walker', 'rule table DESIGN.md C08']
 
 AUTO = 'depccg/printer/auto.py'
